@@ -65,3 +65,43 @@ char *strndup(const char *s, size_t n)
         p[i] = (i < len) ? s[i] : 0;
     return p;
 }
+
+/* further <string.h> functions CBMC 6.11 has no model for (a refactoring may start using them) */
+size_t strcspn(const char *s, const char *reject)
+{
+    size_t n = 0;
+    for (;; n++) {
+        const char *r = reject;
+        char c = s[n];
+        if (c == 0)
+            return n;
+        for (; *r != 0 && *r != c; r++);
+        if (*r != 0)
+            return n;
+    }
+}
+
+char *strpbrk(const char *s, const char *accept)
+{
+    size_t n = strcspn(s, accept);
+    return s[n] != 0 ? (char *) (s + n) : 0;
+}
+
+size_t strnlen(const char *s, size_t maxlen)
+{
+    size_t n = 0;
+    while (n < maxlen && s[n] != 0)
+        n++;
+    return n;
+}
+
+void *memrchr(const void *s, int c, size_t n)
+{
+    const unsigned char *p = s;
+    while (n > 0) {
+        n--;
+        if (p[n] == (unsigned char) c)
+            return (void *) (p + n);
+    }
+    return 0;
+}
